@@ -275,7 +275,10 @@ _public_ int m_mod_ps_subscribe(m_mod_t *mod, const char *topic, m_src_flags fla
 
         /* Store new sub as ref'd memory */
         ev_src_t *sub = m_mem_new(sizeof(ev_src_t), subscribtions_dtor);
-        M_ALLOC_ASSERT(sub);
+        if (!sub) {
+            regfree(&regex);
+            return -ENOMEM;
+        }
 
         ps_src_t *ps_src = &sub->ps_src;
         sub->type = M_SRC_TYPE_PS;
@@ -284,7 +287,11 @@ _public_ int m_mod_ps_subscribe(m_mod_t *mod, const char *topic, m_src_flags fla
         sub->mod = mod;
         memcpy(&ps_src->reg, &regex, sizeof(regex_t));
         ps_src->topic = sub->flags & M_SRC_DUP ? mem_strdup(topic) : topic;
-        ret = m_map_put(mod->subscriptions, ps_src->topic, sub); // M_MAP_VAL_ALLOW_UPDATE -> this will dtor old elem before updating
+        ret = ps_src->topic ? m_map_put(mod->subscriptions, ps_src->topic, sub) : -ENOMEM; // M_MAP_VAL_ALLOW_UPDATE -> this will dtor old elem before updating
+        if (ret != 0) {
+            /* Not stored: release the subscription together with its compiled regex */
+            m_mem_unref(sub);
+        }
     }
     return ret;
 }
